@@ -244,6 +244,31 @@ func checkC14(c *run.Ctx) {
 				tw.Matrix = &pipeline.Matrix{}
 			} else if tw.Matrix.IsEmpty() {
 				tw.Matrix = nil
+			} else {
+				// inner containers of a non-empty matrix: nil <-> empty
+				if len(tw.Matrix.Adjustments) == 0 {
+					if tw.Matrix.Adjustments == nil {
+						tw.Matrix.Adjustments = pipeline.MatrixAdjustments{}
+					} else {
+						tw.Matrix.Adjustments = nil
+					}
+				}
+				if len(tw.Matrix.RemainingFields) == 0 {
+					if tw.Matrix.RemainingFields == nil {
+						tw.Matrix.RemainingFields = map[string]any{}
+					} else {
+						tw.Matrix.RemainingFields = nil
+					}
+				}
+				for _, a := range tw.Matrix.Adjustments {
+					if a != nil && len(a.RemainingFields) == 0 {
+						if a.RemainingFields == nil {
+							a.RemainingFields = map[string]any{}
+						} else {
+							a.RemainingFields = nil
+						}
+					}
+				}
 			}
 			pe := copyEnv(penv)
 			if len(pe) == 0 {
